@@ -14,7 +14,7 @@ from engine.unit import Fn, Raw, Type, Unit
 
 F = "crates/runtime/src/vm.rs"
 M = "crates/runtime/src/types/meta_map.rs"
-P = ("C17", "C06")
+P = ("C17", "C01", "C06")
 
 PRELUDE = r"""
 global size_of usize == 8;   // assumption: 64-bit target
@@ -95,14 +95,30 @@ NUMSTR = [
     (r"Bool\(a (<=|>=|<|>) b\)", None),
 ]
 
+CODE = {"<": 0, "<=": 1, ">": 2, ">=": 3}
+
+
 def cmp_subst(sym, code):
-    return [
-        ("Bool(a %s b)" % sym, "Bool(number_cmp(a, b, %d))" % code, 1),
-        ("Bool(a.as_str() %s b.as_str())" % sym, "Bool(string_cmp(a, b, %d))" % code, 1),
+    # whichever operator the arm uses is passed to the stub as its code (so that a changed operator is
+    # judged, not lost); the contract demands the code of THIS function's operator
+    out = []
+    for s_, c_ in CODE.items():
+        out.append(("Bool(a %s b)" % s_, "Bool(number_cmp(a, b, %d))" % c_, None))
+        out.append(("Bool(a.as_str() %s b.as_str())" % s_, "Bool(string_cmp(a, b, %d))" % c_, None))
+    return out + [
         (r"&([A-Za-z]+)\.into\(\)", r"&meta_key(\1)", None, "re"),
         (r"\bresult\.into\(\)", "bool_into_value(result)", None, "re"),
         (r"(o\.try_borrow\(\)\?\.[a-z_]+\(rhs_value\)\?)\.into\(\)", r"bool_into_value(\1)", 1, "re"),
     ]
+
+
+def builtin_clauses(lhs, rhs, result, code):
+    return """
+        // C01: numbers and strings compare by value / lexicographically with THIS operator
+        old(self).reg(%(l)s) matches KValue::Number(a) ==> (old(self).reg(%(r)s) matches KValue::Number(b) ==> r is Ok && final(self).reg(%(res)s) == KValue::Bool(num_cmp(a, b, %(c)d))),   // @numbers_compare_with_this_operator
+        old(self).reg(%(l)s) matches KValue::Str(a) ==> (old(self).reg(%(r)s) matches KValue::Str(b) ==> r is Ok && final(self).reg(%(res)s) == KValue::Bool(str_cmp(a, b, %(c)d))),      // @strings_compare_with_this_operator
+""" % dict(l=lhs, r=rhs, res=result, c=code)
+
 
 MACROS = [("call_metamap_binary_op", F, "mod macros :: macro_rules! call_metamap_binary_op")]
 
@@ -119,7 +135,7 @@ UNIT = Unit(
         Self::direct(old(self), final(self), r is Ok, result, lhs, rhs, BinaryOp::Less),                   // @metakey_function_called_with_documented_operands
         // no @<: an error (nothing to derive `<` from)
         old(self).reg(lhs) matches KValue::Map(m) ==> (!m.has(BinaryOp::Less) ==> r is Err),               // @missing_operator_is_an_error
-"""),
+""" + builtin_clauses("lhs", "rhs", "result", 0) + r""""""),
         Fn(F, "impl KotoVm :: fn run_less_or_equal", props=P, macros=MACROS, subst=cmp_subst("<=", 1),
            spec=r"""
     ensures
@@ -129,7 +145,7 @@ UNIT = Unit(
             final(self).reg(result) == KValue::Bool(op_says(old(self).reg(lhs), old(self).reg(rhs), m.op(BinaryOp::Less))
                                                     || op_says(old(self).reg(lhs), old(self).reg(rhs), m.op(BinaryOp::Equal)))),   // @derived_from_less_and_equal
         old(self).reg(lhs) matches KValue::Map(m) ==> (!m.has(BinaryOp::LessOrEqual) && !(m.has(BinaryOp::Less) && m.has(BinaryOp::Equal)) ==> r is Err),   // @missing_operator_is_an_error
-"""),
+""" + builtin_clauses("lhs", "rhs", "result", 1) + r""""""),
         Fn(F, "impl KotoVm :: fn run_greater", props=P, macros=MACROS, subst=cmp_subst(">", 2),
            spec=r"""
     ensures
@@ -139,7 +155,7 @@ UNIT = Unit(
             final(self).reg(result) == KValue::Bool(!(op_says(old(self).reg(lhs), old(self).reg(rhs), m.op(BinaryOp::Less))
                                                       || op_says(old(self).reg(lhs), old(self).reg(rhs), m.op(BinaryOp::Equal))))),   // @derived_from_less_and_equal
         old(self).reg(lhs) matches KValue::Map(m) ==> (!m.has(BinaryOp::Greater) && !(m.has(BinaryOp::Less) && m.has(BinaryOp::Equal)) ==> r is Err),   // @missing_operator_is_an_error
-"""),
+""" + builtin_clauses("lhs", "rhs", "result", 2) + r""""""),
         Fn(F, "impl KotoVm :: fn run_greater_or_equal", props=P, macros=MACROS, subst=cmp_subst(">=", 3) + [("use macros::call_metamap_binary_op;", "", 1)],
            spec=r"""
     ensures
@@ -148,7 +164,7 @@ UNIT = Unit(
         old(self).reg(lhs) matches KValue::Map(m) ==> (!m.has(BinaryOp::GreaterOrEqual) && m.has(BinaryOp::Less) && r is Ok ==>
             final(self).reg(result) == KValue::Bool(!op_says(old(self).reg(lhs), old(self).reg(rhs), m.op(BinaryOp::Less)))),   // @derived_from_less
         old(self).reg(lhs) matches KValue::Map(m) ==> (!m.has(BinaryOp::GreaterOrEqual) && !m.has(BinaryOp::Less) ==> r is Err),   // @missing_operator_is_an_error
-"""),
+""" + builtin_clauses("lhs", "rhs", "result", 3) + r""""""),
     ],
     epilogue=r"""
 // ---- vacuity guard: MUST FAIL
